@@ -199,6 +199,8 @@ CURATED = [
     ("rr_two_null", G("A: Tx A B C | Ty; B: ; C: ")),
     ("rr_three_null", G("A: Tx A B C D | Ty; B: ; C: Tz | ; D: ")),
     ("indirect_rr_null", G("A: Tx M | Ty; M: A B C; B: ; C: D; D: ")),
+    # one production reducible at two dot positions in ONE state on the same lookahead
+    ("self_overlap_rn", G("P: X X | Tx; X: P Tb | ")),
     ("lr_two_null_mid", G("S: Ta B C Td S | Te; B: Tb | ; C: Tc | ")),
     ("regex_terms", G("S: S Ta | Tb", kinds={"a": "re", "b": "re"})),
     ("regex_expr", G("E: E Tp E {left, 1} | E Tm E {left, 2} | Tn", kinds={"n": "re"})),
@@ -619,6 +621,9 @@ def docgen(rng):
     for k, s_ in enumerate(dict.fromkeys(used_strs)):
         if rng.random() >= odd:
             tl.append("Q%d: %s;" % (k, s_))
+    if rng.random() < 0.06:
+        # a terminal no rule uses, now and then without a recogniser
+        tl.append("Spare: %s;" % rng.choice(["'s'", "/s+/", ""]))
     if rng.random() < odd / 2 and tl:
         tl.append(rng.choice(tl))
     rng.shuffle(tl)
